@@ -56,10 +56,13 @@ structure Flags where
       (pinned: membership in the utxo set only; outputs too small to pay the rebroadcast fee stay there until the
       purge at twice the genesis period) -/
   windowChecked : Bool := false
+  /-- verification_thread.rs:45 — `verify_tx` itself drops a peer transaction of type Fee/SPV/ATR/Issuance (a tree may
+      refuse these only at the pool, `poolRejectsPrivilegedTypes`, and still forward them from the verification thread) -/
+  verifyDropsPrivilegedTypes : Bool := false
   deriving Repr, DecidableEq
 
 def Flags.pinned : Flags := {}
-def Flags.fixed : Flags := ⟨true, true, true, true, true, true, true, true, true, true⟩
+def Flags.fixed : Flags := ⟨true, true, true, true, true, true, true, true, true, true, true⟩
 
 inductive TxType where
   | normal | fee | goldenTicket | atr | vip | spv | issuance | blockStake | bound
@@ -199,7 +202,7 @@ def poolAccepts (fl : Flags) (cx : Ctx) (u : List Nat) (tx : Tx) : PoolRes :=
 
 /-- `verify_tx`: forwards to the consensus thread iff the transaction validates -/
 def verifyTxForwards (fl : Flags) (cx : Ctx) (u : List Nat) (tx : Tx) : Bool :=
-  txValidate fl { cx with vau := true } u tx && !(fl.poolRejectsPrivilegedTypes && tx.typ.privileged)
+  txValidate fl { cx with vau := true } u tx && !(fl.verifyDropsPrivilegedTypes && tx.typ.privileged)
 
 /-! ## Block::generate — duplicate-input map of the FIRST non-fee transaction only -/
 
